@@ -43,7 +43,11 @@ fn stress_lexicon(rng: &mut Rng, lex: &mut Lexicon, nid: i64, size_class: u64) {
         let k = textgen::random_key(rng, 3);
         // 127 entries per key is the format limit: more must be rejected by the compiler (the world is then
         // counted as rejected), never compiled into a table that returns only part of them
-        let h = *rng.pick(&[2usize, 3, 10, 126, 127, 127, 128, 255, 256, 257, 300]);
+        let mut h = *rng.pick(&[2usize, 3, 10, 126, 127, 127, 128, 255, 256, 257, 300]);
+        if size_class == 4 && h > 127 {
+            // the one huge world of a quick run must compile: its observations are required
+            h = 127;
+        }
         let first = lex.entries.len();
         for _ in 0..h {
             add(rng, lex, &k);
@@ -129,6 +133,10 @@ pub fn run(ctx: &Ctx, rep: &mut Report) {
         let mut popts = PluginOpts::none();
         // (15 user dictionaries are one too many: such a stack must be refused, and is then counted as a rejected world)
         popts.n_users = if small { rng.below(3) } else { *rng.pick(&[0usize, 0, 1, 2, 3, 3, 5, 7, 14, 14, 15]) };
+        if size_class == 4 && popts.n_users == 15 {
+            // the one huge world of a quick run must load: its observations are required
+            popts.n_users = 14;
+        }
         let world = match guard(|| build_world_from(&mut rng, &dopts, matrix, sys, popts, if wi % 3 == 0 || small { Place::Offset(1) } else { Place::Owned })) {
             Ok(Ok(w)) => w,
             Ok(Err(e)) => {
